@@ -179,7 +179,7 @@ def safe_unparse(n):
     return '?'
 
 
-MARK = re.compile(r'ag__\.ld\((t|c|it|it2|cm|mark)\), \((\d+),')
+MARK = re.compile(r'ag__\.ld\((t|c|it|it2|it3|cm|mark)\), \((\d+),')
 
 
 def convert_and_check(src, feats, pid, share_constant=False):
